@@ -8,6 +8,12 @@ use crdts::{CmRDT, CvRDT, Dot, VClock};
 use std::collections::{BTreeMap, BTreeSet};
 
 type MM = Map<u8, MVReg<u8, u8>, u8>;
+
+/// C05 (builder clause): `rm(key, ctx)` asks for the removal of exactly `key` under exactly the context the caller observed
+fn check_rm_op(r: &mut Report, op: &Op<u8, MVReg<u8, u8>, u8>, k: u8, seen: &VClock<u8>, desc: &dyn Fn() -> String) {
+    let ok = match op { Op::Rm { clock, keyset } => clock == seen && keyset.len() == 1 && keyset.contains(&k), _ => false };
+    r.case("map.rm_op_is_the_observed_context", ok, desc, &|| format!("rm({}) under context {:?} built {:?}", k, seen, op));
+}
 type MO = Map<u8, Orswot<u8, u8>, u8>;
 
 fn den_keys(ops: &[Op<u8, MVReg<u8, u8>, u8>]) -> (BTreeMap<u8, u64>, BTreeMap<u8, BTreeMap<u8, u64>>) {
@@ -64,7 +70,12 @@ fn rec(reps: Vec<MM>, known: Vec<Vec<Op<u8, MVReg<u8, u8>, u8>>>, all: Vec<Op<u8
             r2[i].apply(op.clone()); k2[i].push(op.clone()); a2.push(op);
             rec(r2, k2, a2, format!("{} r{}:up({})", desc, i, k), depth - 1, nv + 1, r);
             let mut r2 = reps.clone(); let mut k2 = known.clone(); let mut a2 = all.clone();
+            let seen = r2[i].get(&k).derive_rm_ctx().clock;
             let op = r2[i].rm(k, r2[i].get(&k).derive_rm_ctx());
+            check_rm_op(r, &op, k, &seen, &|| format!("{} r{}:rm({})", desc, i, k));
+            let seen_all = r2[i].read_ctx().derive_rm_ctx().clock;
+            let op_all = r2[i].rm(k, r2[i].read_ctx().derive_rm_ctx());
+            check_rm_op(r, &op_all, k, &seen_all, &|| format!("{} r{}:rm({})@read_ctx (built only)", desc, i, k));
             r2[i].apply(op.clone()); k2[i].push(op.clone()); a2.push(op);
             rec(r2, k2, a2, format!("{} r{}:rm({})", desc, i, k), depth - 1, nv, r);
         }
@@ -110,10 +121,12 @@ fn random_walks(r: &mut Report, n: usize, len: usize, seed: u64) {
             let actor = (i + 1) as u8;
             match lcg(&mut s) % 8 {
                 0 | 1 => { let k = (lcg(&mut s) % 3) as u8; let ctx = reps[i].read_ctx().derive_add_ctx(actor); let v = nv; nv = nv.wrapping_add(1); let op = reps[i].update(k, ctx, |reg, c| reg.write(v, c)); reps[i].apply(op.clone()); known[i].push(op.clone()); all.push(op); desc.push_str(&format!(" r{}:up({})", i, k)); }
-                2 => { let k = (lcg(&mut s) % 3) as u8; let op = reps[i].rm(k, reps[i].get(&k).derive_rm_ctx()); reps[i].apply(op.clone()); known[i].push(op.clone()); all.push(op); desc.push_str(&format!(" r{}:rm({})", i, k)); }
+                2 => { let k = (lcg(&mut s) % 3) as u8; let seen = reps[i].get(&k).derive_rm_ctx().clock; let op = reps[i].rm(k, reps[i].get(&k).derive_rm_ctx()); check_rm_op(r, &op, k, &seen, &|| format!("{} r{}:rm({})", desc, i, k)); reps[i].apply(op.clone()); known[i].push(op.clone()); all.push(op); desc.push_str(&format!(" r{}:rm({})", i, k)); }
                 3 => {
                     // 'clear what I can see': removes of two keys from ONE read context (same clock)
                     let ops: Vec<Op<u8, MVReg<u8, u8>, u8>> = (0..2u8).map(|k| reps[i].rm(k, reps[i].read_ctx().derive_rm_ctx())).collect();
+                    let seen = reps[i].read_ctx().derive_rm_ctx().clock;
+                    for (k, op) in ops.iter().enumerate() { check_rm_op(r, op, k as u8, &seen, &|| format!("{} r{}:rm({})@read_ctx", desc, i, k)); }
                     for op in ops { reps[i].apply(op.clone()); known[i].push(op.clone()); all.push(op); }
                     desc.push_str(&format!(" r{}:rm(0),rm(1)@read_ctx", i));
                 }
